@@ -430,6 +430,9 @@ func runSet(out *sink, p pset, sz sizes, r *rand.Rand) {
 	}
 	for q := 0; q < sz.msgsPerKey+extra; q++ {
 		msg, ctx := randMsg(r), randCtx(r)
+		if q == 1 {
+			ctx = vt.Bytes(r, 255) // the longest admissible context, in every run
+		}
 		sig, same, serr, pan := signDet(p, kp, msg, ctx, q == 0 || p.Fast)
 		md := "rv"
 		if q < nfull {
